@@ -10,6 +10,7 @@
 #include <cstdint>
 #include <list>
 #include <optional>
+#include <cstring>
 #include <string>
 #include <tuple>
 #include <utility>
@@ -337,6 +338,7 @@ enum Probe : int
     PB_UNEQUAL_ALLOC_OPERANDS,
     PB_WRITE_THROUGH_PROXY,
     PB_ALGO_PERMUTATION,
+    PB_VALUE_COPY_THREW_IN_SHARED_COPY,
     PB_ALIASING_BYTE_STREAMS,
     PB_ALIASING_CONFIRMED,
     PB_COUNT
@@ -386,6 +388,7 @@ inline const char* const PROBE_NAMES[PB_COUNT] = {
     "unequal_alloc_operands",
     "write_through_proxy",
     "algo_permutation",
+    "value_copy_constructor_threw_while_copying_shared",
     "aliasing_byte_streams_built",
     "aliasing_byte_streams_confirmed"};
 
@@ -396,6 +399,7 @@ struct Counters
     std::uint64_t probes[PB_COUNT] = {};
     std::uint64_t oracle_evals = 0;
     std::uint64_t ignored_other_prop = 0;
+    std::uint64_t value_throws = 0, abandoned_objects = 0, abandoned_blocks = 0;  // F10
 };
 
 struct RunCtx
@@ -504,7 +508,11 @@ inline void env_violation(const char* prop, const char* cls, const char* key, lo
     (void)a;
     (void)b;
     // the step's own domain is added for lifetime/heap violations raised inside a subject operation
-    report(pm(prop_from_str(prop)), cls, key);
+    PropMask m = pm(prop_from_str(prop));
+    // a block given back through an allocator that does not compare equal to the one it came from is the memory-safety
+    // face (C07) of "never owns memory from an allocator unequal to get_allocator()" (C08)
+    if (std::strcmp(cls, "free-foreign-allocator") == 0) m |= pm(C08);
+    report(m, cls, key);
 }
 
 inline void probe(int p)
